@@ -928,9 +928,11 @@ class ApodOracle:
         out = []
         if (src == 0).any():
             return []
+        if not np.all(np.isfinite(got)):
+            return []          # the window overflowed (e.g. lorentz_gauss with a large line width): IEEE inf/nan, outside the model
         ratio = got / src
         w = ratio[:, 0]
-        if not np.allclose(ratio, w.reshape(-1, 1), rtol=1e-9, atol=1e-12) or not np.allclose(np.imag(w), 0, atol=1e-12):
+        if not np.allclose(ratio, w.reshape(-1, 1), rtol=1e-9, atol=1e-12) or not np.all(np.abs(np.imag(w)) <= 1e-12 + 1e-9 * np.abs(w)):
             out.append("C15:window-depends-on-trace:" + sig)
         w = np.real(w)
         c = np.asarray(pre.coords[dim], dtype=float)
